@@ -4,6 +4,7 @@
    costs are non-decreasing. -/
 import PS.Proofs.Enum.CDOrder
 import PS.Proofs.Enum.CDSlack
+import PS.Model.Enum.ConstantDelay
 namespace PS.CD
 
 /-- every stored CostTuple costs at least `lo` -/
@@ -152,5 +153,59 @@ theorem monotoneB_sound (b : Bool) : ∀ (ops : List QOp) (q : Q Rat) (lo : Rat)
     intro p q' hq'
     simp only [monotoneB, hq'] at h
     exact monotoneB_sound b rest q' p.cost h
+
+/-! ### the successor loop of the machine respects the discipline -/
+
+theorem sorted_succ {cl : List Rat} (hs : cl.Pairwise (· ≤ ·)) {x : Nat} {c0 c1 : Rat} (h0 : cl[x]? = some c0)
+    (h1 : cl[x + 1]? = some c1) : c0 ≤ c1 := by
+  obtain ⟨hx, rfl⟩ := List.getElem?_eq_some_iff.mp h0
+  obtain ⟨hx1, rfl⟩ := List.getElem?_eq_some_iff.mp h1
+  exact (List.pairwise_iff_getElem.mp hs) x (x + 1) hx hx1 (by omega)
+
+/-- **the successors pushed by `query_derivation` cost at least the popped CostTuple** when the cost lists of the
+    argument non-terminals are non-decreasing (`new_cost = ct.cost - cl[i] + cl[i+1]`): the successor loop of the model
+    keeps every lower bound `lo ≤ ct.cost` of the derivation queue -/
+theorem succLoop_lowerBound (b asserts : Bool) (args : List NT) (c lo : Rat) (comb : List Nat) (hlo : lo ≤ c) :
+    ∀ (rem i : Nat) (s s' : St Rat), succLoop (ratA b) asserts args c comb rem i s = some s' →
+    (∀ a cl, AList.lookup a s.costNt = some cl → cl.Pairwise (· ≤ ·)) →
+    ∀ q, AList.lookup args s.queueDer = some q → QWF q → LowerBound q lo →
+    ∃ q', AList.lookup args s'.queueDer = some q' ∧ QWF q' ∧ LowerBound q' lo := by
+  intro rem
+  induction rem with
+  | zero =>
+    intro i s s' h _ q hq hwf hl
+    simp only [succLoop, Option.some.injEq] at h; subst h
+    exact ⟨q, hq, hwf, hl⟩
+  | succ rem ih =>
+    intro i s s' h hsorted q hq hwf hl
+    simp only [succLoop] at h
+    split at h
+    · split at h
+      · simp at h
+      · rename_i cl hcl
+        split at h
+        · split at h
+          · simp only [Option.some.injEq] at h; subst h; exact ⟨q, hq, hwf, hl⟩
+          · exact ih _ _ _ h hsorted q hq hwf hl
+        · split at h
+          · rename_i c0 c1 q0 h0 h1 hq0
+            rw [hq] at hq0
+            simp only [Option.some.injEq] at hq0; subst hq0
+            split at h
+            · simp at h
+            · rename_i q1 hpush
+              obtain ⟨hwf1, _⟩ := qwf_push (ratA b) q q1 _ asserts hwf hpush
+              have hcost : lo ≤ c - c0 + c1 := by
+                have := sorted_succ (hsorted _ cl hcl) h0 h1
+                grind
+              have hl1 : LowerBound q1 lo := lowerBound_push b asserts q q1 _ lo hwf hl hcost hpush
+              have hlook : AList.lookup args (s.setQueueDer args q1).queueDer = some q1 := by
+                simp [St.setQueueDer, AList.lookup_insert_self]
+              split at h
+              · simp only [Option.some.injEq] at h; subst h
+                exact ⟨q1, hlook, hwf1, hl1⟩
+              · exact ih _ _ _ h hsorted q1 hlook hwf1 hl1
+          · simp at h
+    · simp at h
 
 end PS.CD
